@@ -2336,7 +2336,7 @@ def judge21(run, cfg, ops, model, out, polls, typed, stalled, fs):
             run.probe('unspecified-corner-reached')
             return
         if i >= len(got):
-            run.violate('C21', 'trace-short:expected-%s' % _evclass(e),
+            run.violate('C21', 'trace-short:expected-%s%s' % (_evclass(e), _history_class(exp, i)),
                         'engine trace ends after %d events; model expects %r next\nmodel  %r\nengine %r\nprogram:\n%s\ndirect: %r\n'
                         'faults: %r\n%s' % (i, e, exp, got, listing, directs, faults, _tail(out)))
             return
@@ -2346,13 +2346,13 @@ def judge21(run, cfg, ops, model, out, polls, typed, stalled, fs):
         if e[0] in ('E', 'stop', 'derr') and isinstance(e[1], tuple) and g[0] == e[0] and g[1] in e[1] and g[2:] == e[2:]:
             continue
         if e != g:
-            run.violate('C21', 'trace-mismatch:model-%s:engine-%s' % (_evclass(e), _evclass(g)),
+            run.violate('C21', 'trace-mismatch:model-%s:engine-%s%s' % (_evclass(e), _evclass(g), _history_class(exp, i)),
                         'event %d: model %r, engine %r\nmodel  %r\nengine %r\nprogram:\n%s\ndirect: %r\nfaults: %r\n%s' % (
                             i, e, g, exp, got, listing, directs, faults, _tail(out)))
             return
         n += 1
     if len(got) > len(exp):
-        run.violate('C21', 'trace-long:extra-%s' % _evclass(got[len(exp)]),
+        run.violate('C21', 'trace-long:extra-%s%s' % (_evclass(got[len(exp)]), _history_class(exp, len(exp))),
                     'engine produced %r after the model finished\nmodel  %r\nengine %r\nprogram:\n%s\ndirect: %r\nfaults: %r' % (
                         got[len(exp)], exp, got, listing, directs, faults))
         return
@@ -2369,6 +2369,22 @@ def judge21(run, cfg, ops, model, out, polls, typed, stalled, fs):
         if len(left) != len(exp_left):
             run.violate('C21', 'fault-plan-accounting',
                         'faults still armed in the simulator %r, in the model %r\nprogram:\n%s' % (left, exp_left, listing))
+
+
+def _history_class(exp, i):
+    """What kind of history the agreed part of the trace ends in (part of the signature)."""
+    last_e = None
+    for j in range(i - 1, -1, -1):
+        if exp[j][0] == 'E':
+            last_e = j
+            break
+    if last_e is None:
+        return ''
+    if any(x == ('break', HB) for x in exp[last_e:i]):
+        return ':after-break-and-cont-inside-handler'
+    if isinstance(exp[last_e][2], int) and T0 <= exp[last_e][2] < H0:
+        return ':after-error-in-event-trap-routine'
+    return ''
 
 
 def _evclass(e):
